@@ -60,6 +60,7 @@ def run(variant: str, ch: e2.Choices, bound: int) -> Dict[str, Any]:
 
             sched.trace_codes |= {cls._cancel_state_tasks.__code__, inner_code(cls._after_timer, "timer_thread")}
         sched.watch_codes = {cls._process_event.__code__}
+        sched.watch_preempt = True
         it.start()
         for name, evs in spec["producers"].items():
             def body(evs=evs):
